@@ -237,8 +237,8 @@ function step(l) {
       if (s === undefined) res = {s: "undefined", back: "-"};
       else if (typeof s !== "string") res = {s: "!" + typeof s, back: "-"};
       else {
-        var back;
-        try { back = render(JSON.parse(s)); } catch (e) { back = errName(e); }
+        var back = "-";      // (l.pb === "F": escaped lone surrogate in the text, documented exception of JSON.parse)
+        if (l.pb !== "F") { try { back = render(JSON.parse(s)); } catch (e) { back = errName(e); } }
         res = {s: enc(s), back: back};
       }
     } catch (e) { res = {s: errName(e), back: "-"}; }
